@@ -529,6 +529,9 @@ def model_task(task, ybin, root, prop):
             pkg.files[fn0].append(M.Record("SteerPodInner", (), [("narrow", narrow()), ("wide", wide())]))
             pkg.files[fn0].append(M.Record("SteerPodPacked", (), [("first", M.Prim("float32")), ("second", M.Prim("float32"))]))
             pkg.files[fn0].append(M.Record("SteerPodNested", (), [("head", M.Named("SteerPodTail")), ("tail", M.Prim(pr_.choice(["uint8", "float32"])))]))
+            # ... and one with a fixed-length vector of length zero (a slot reserved for later): no bytes on the wire, but a member
+            # of size one in a C++ struct
+            pkg.files[fn0].append(M.Record("SteerPodEmpty", (), [("code", M.Prim("uint8")), ("reserved", M.Vec(M.Prim(pr_.choice(["uint8", "float32"])), 0)), ("level", M.Prim(pr_.choice(["int8", "uint8"])))]))
             # dense integer streams right behind the padding: with the alignment sweep, varints of every length and of every
             # "single high bit" shape get written and read across the staging-buffer boundary
             at = 1 if protos0[0].steps and protos0[0].steps[0][0] == sw.PAD_STEP else 0
@@ -580,6 +583,8 @@ def model_task(task, ybin, root, prop):
             protos0[0].steps.append(("steerpodi", M.Vec(M.Named("SteerPodInner")), False))
             protos0[0].steps.append(("steerpodp", M.Vec(M.Named("SteerPodPacked"), 2), False))
             protos0[0].steps.append(("steerpodn", M.Vec(M.Named("SteerPodNested")), True))
+            protos0[0].steps.append(("steerpode", M.Named("SteerPodEmpty"), True))
+            protos0[0].steps.append(("steerpodev", M.Vec(M.Named("SteerPodEmpty")), False))
     # the time zone the Python nodes run in: west and east of Greenwich, with and without minutes, with daylight saving
     pkg.process_tz = rng.fork("tz").choice(["UTC", "UTC", "PST8", "NST3:30", "JST-9", "CET-1CEST", "America/New_York", "Pacific/Kiritimati"])
     model = P.PyModel(pkg, ybin, root, want_cpp=want_cpp, cpp_opts=C.CPP_OPTS)
